@@ -245,7 +245,10 @@ def decode_chain(path, v):
         elif (a, b) == ("String", "DateTime"):
             cur = pd.Timestamp(cur)
         elif (a, b) == ("DateTime", "Date"):
-            cur = pd.Timestamp(cur).date()
+            ts_ = pd.Timestamp(cur)
+            if ts_ != ts_.normalize():          # any time-of-day part, down to the nanosecond, has no exact date
+                raise ValueError("not a midnight")
+            cur = ts_.date()
         elif (a, b) == ("String", "URL"):
             cur = urlparse(cur)
         elif (a, b) == ("String", "Path"):
